@@ -33,6 +33,7 @@ func checkC15(c *Ctx) {
 	c.Rule("C15/R7", "where a measurement lands does not depend on the lines before it: in Builder.Add every value is appended to the cell looked up (or created) under that measurement's own table key and the result's (row, column) key — no shortcut through cells remembered from an earlier call (same rule as C14/R2)")
 	c.Rule("C15/R8", "sorted key order cannot silently degrade to map order: flattened-field cache invariant (same rule as C09/R10)")
 	c.Rule("C15/R10", "key identity (shared with C08/R1 and C14/R6): interning hashes, compares and stores one trimmed row, so equal value tuples give one key — two keys with identical values would make tables and rows appear twice, in hash-map order")
+	c.Rule("C15/R13", "the concurrency limiter always admits someone: the capacity of every channel the table builder makes, evaluated with GOMAXPROCS = 1, 2 and 64, is at least 1 (a token is put in before the goroutine that takes it out exists, so capacity 0 blocks for ever)")
 	c.Rule("C15/R12", "a goroutine started in a loop sees its own iteration's values: no closure started as a goroutine inside a loop (directly or through the spawn helper) captures a variable that is declared outside that loop and assigned inside it")
 	c.Rule("C15/R11", "runs do not talk to each other through package-level variables: nothing reachable from the command writes a package-level variable of the module after package initialisation (direct stores, and stores through a pointer taken to one), apart from the reviewed list")
 	c.Rule("C15/R9", "process-wide caches are keyed by every input of the memoised call, verbatim (same rule as C13/R4, over every function reachable from the command): otherwise what an earlier in-process run asked for leaks into a later run's output")
@@ -62,6 +63,7 @@ func checkC15(c *Ctx) {
 	// R11: a run leaves no mark on package-level state that a later run in the same process reads
 	c15Globals(c, p, eff, reach)
 	c15LoopCaptures(c, p, "C15/R12")
+	c15Limiter(c, p)
 	// R9: process-wide caches on the command's path cannot carry one run's arguments into the next
 	var memoFns []*ssa.Function
 	for _, fn := range p.Funcs(c15Pkgs...) {
@@ -1228,4 +1230,66 @@ func c15LoopCaptures(c *Ctx, p *Prog, R string) {
 	} else {
 		c.OK(R, "positive-control", "checker/testdata/lookbehind/lb.go", "matcher fires on the stored goroutine sharing a variable hoisted out of its loop")
 	}
+}
+
+// c15Limiter (C15/R13): see the rule text.
+func c15Limiter(c *Ctx, p *Prog) {
+	const R = "C15/R13"
+	n := 0
+	var eval func(v ssa.Value, g int64) (int64, bool)
+	eval = func(v ssa.Value, g int64) (int64, bool) {
+		switch x := v.(type) {
+		case *ssa.Const:
+			return constInt(x)
+		case *ssa.Convert:
+			return eval(x.X, g)
+		case *ssa.Call:
+			if objIs(calleeObj(&x.Call), "runtime", "", "GOMAXPROCS") || objIs(calleeObj(&x.Call), "runtime", "", "NumCPU") {
+				return g, true
+			}
+		case *ssa.BinOp:
+			a, ok1 := eval(x.X, g)
+			b, ok2 := eval(x.Y, g)
+			if !ok1 || !ok2 {
+				return 0, false
+			}
+			switch x.Op {
+			case token.ADD:
+				return a + b, true
+			case token.SUB:
+				return a - b, true
+			case token.MUL:
+				return a * b, true
+			case token.QUO:
+				if b != 0 {
+					return a / b, true
+				}
+			}
+		}
+		return 0, false
+	}
+	for _, fn := range p.Funcs(btabRel) {
+		eachInstr(fn, func(_ *ssa.BasicBlock, in ssa.Instruction) {
+			mc, ok := in.(*ssa.MakeChan)
+			if !ok {
+				return
+			}
+			n++
+			key := fmt.Sprintf("%s:channel-capacity#%d", fnName(fn), n)
+			bad := ""
+			for _, g := range []int64{1, 2, 64} {
+				sz, ok := eval(mc.Size, g)
+				if !ok {
+					c.Undecided(R, key, p.pos(mc.Pos()), "cannot evaluate the channel's capacity")
+					return
+				}
+				if sz < 1 {
+					bad = fmt.Sprintf("with GOMAXPROCS = %d the limiter channel has capacity %d", g, sz)
+					break
+				}
+			}
+			c.Check(bad == "", R, key, p.pos(mc.Pos()), "capacity is at least 1 for GOMAXPROCS = 1, 2, 64", bad+": the token is sent before the goroutine that will take it back is started, so the send never completes and benchstat hangs")
+		})
+	}
+	c.Floor(R, "channels made by the table builder", n, 1)
 }
